@@ -12,6 +12,8 @@ import (
 type T87Stats struct {
 	Regular, RunSamples, Interruptions int
 	Escapes                            int // limited-length (LIMIT) escape codes
+	OverlongPrefix                     int // unary prefixes longer than LIMIT-qbpp-1 zeros (not code words)
+	NonCanonicalRunEnd                 int // runs reaching the line end coded as '0'+remainder instead of '1'
 	Resets                             int // N reached RESET
 	BiasSat                            int // C saturated at -128/127
 	MaxRunIndex                        int
@@ -177,6 +179,11 @@ func (s *t87State) golomb(k, limit int) int {
 	}
 	if z < limit-s.qbpp-1 {
 		return z<<uint(k) | s.br.bits(k)
+	}
+	if z > limit-s.qbpp-1 {
+		// A.5.3: the escape prefix is exactly LIMIT-qbpp-1 zeros and a one; a longer run
+		// of zeros is not a code word of the limited-length Golomb code
+		s.st.OverlongPrefix++
 	}
 	s.st.Escapes++
 	return s.br.bits(s.qbpp) + 1
@@ -508,8 +515,10 @@ func t87Scan(ecs []byte, res *T87Result, comps []int, st *T87Stats) error {
 					return fmt.Errorf("run overruns the line")
 				}
 				if !eol && x == w {
-					// a run that ends exactly at the line end is terminated by the
-					// end of line, not by an interruption sample
+					// A.7.1.2: a run that reaches the end of the line is coded with a '1'
+					// (whatever its length); '0' + remainder bits reaching exactly the line
+					// end decodes the same way but is not what the standard's encoder emits
+					st.NonCanonicalRunEnd++
 				}
 				continue
 			}
